@@ -135,8 +135,10 @@ class ActionModel:
         callee = self.mod.funcs[f.id]
         params = [a.arg for a in callee.args.args]
         vals = [self._eval(a, env, p) for a in call.args]
-        if not params or not vals or vals[0].kind != "dul" or call.keywords or len(vals) > len(params):
+        if not params or not vals or call.keywords or len(vals) > len(params):
             return None
+        if vals[0].kind != "dul" and not (norm(call.args[0]) in ("assoc", f"{p}.assoc") and f.id.startswith("_")):
+            return None  # (a private helper handed the association - `_wake(assoc)` - is expanded like one handed the provider)
         if depth >= 3:
             raise AnalysisError(f"fsm.{callee.name}: helper calls nested deeper than 3")
         bind = dict(zip(params[1:], vals[1:]))
@@ -207,7 +209,7 @@ class ActionModel:
                 pe.effects.append(("kill", None, call))
             elif d in ("evt.trigger", "trigger") and len(call.args) >= 2:
                 pe.effects.append(("evt", (dotted(call.args[1]) or "?").split(".")[-1], call))
-            elif d.endswith(".dimse.msg_queue.put"):
+            elif d.endswith(".dimse.msg_queue.put") or (d.endswith("msg_queue.put") and call.args and norm(call.args[0]).replace(" ", "") == "(None,None)"):
                 pe.effects.append(("sentinel", None, call))
             elif isinstance(f, ast.Attribute) and f.attr in (
                 "close",
